@@ -18,6 +18,16 @@ relations of the property are the edges, executed on the real calculator and com
                       with a vector, after the caller's own F.density update, and as operand of n*F, F+G, formula(F)
                       (every intermediate observed before it is used); F alone gives the base result again and
                       no kept Formula is altered; vectors of one length share ONE buffer refilled in place
+  front ends          every public route to the calculation (nsf / periodictable neutron_scattering and neutron_sld,
+                      neutron_sld_from_atoms, Formula.neutron_sld; whatever of these exists) x density= / natural_density=
+                      x no keyword / wavelength= / energy= (scalar) against the scalar wavelength= call of
+                      nsf.neutron_scattering, which is itself compared with the reference equations
+  arguments           the wavelength / energy / velocity handed to every route and to every conversion function as 13 kinds
+                      of caller-owned object (float64 array of length 1 and n, view of a larger array, read-only array,
+                      integer array, list / tuple of floats / of integers, 0-d array, numpy scalar, float, int): call, call
+                      again, the caller refills the object in place, call, the caller writes into the result; the
+                      argument reads the same after every call, every result is an object of its own and stays what it
+                      was, every call is right
   invariants          rho_im, rho_inc, Sigma_coh, Sigma_abs, Sigma_inc, t_u >= 0 in every state visited
   conversions         E lambda^2 and v lambda constant on a 40-point log grid, round trips, the documented
                       anchor 1.798 A = 2200 m/s = 25.3 meV (to the printed digits), vector == scalar
@@ -42,8 +52,19 @@ META = dict(
           "every state of the bound gets every edge of its kind; structure edges enumerate every distinct "
           "(permutation, bracketing, group multiplier, construction form) of a fragment multiset; object edges are "
           "one fixed session of calls on a Formula the caller keeps (overrides, in-place density update, use as "
-          "operand) in which every call is related to the base result; non-trivial = the "
-          "edge changes the input (k != 1, non-identity permutation, non-flat tree, other constructor, vector)"),
+          "operand) in which every call is related to the base result; front-end edges cross every public route "
+          "that exists (nsf.neutron_scattering, periodictable.neutron_scattering, nsf.neutron_sld, "
+          "periodictable.neutron_sld, nsf.neutron_sld_from_atoms, Formula.neutron_sld) with {density=, "
+          "natural_density=} x {no wavelength keyword, wavelength=, energy=} at 3 scalars and relate each to the "
+          "scalar wavelength= call of nsf.neutron_scattering (itself compared with the reference equations); "
+          "argument sessions hand the wavelength / energy (every route) or wavelength / energy / velocity (the "
+          "three conversion functions) over as each of 13 kinds of caller-owned object and run the fixed series "
+          "call, call, caller refills the object in place, call, caller writes into the last result: after "
+          "every step the argument (and the parent of a view) is bit-identical to what the caller left, no result "
+          "shares memory with it, every result handed out earlier is bit-identical to its snapshot, and every call "
+          "is judged entry by entry against the scalar calls; non-trivial = the "
+          "edge changes the input (k != 1, non-identity permutation, non-flat tree, other constructor, vector, other "
+          "route / keyword / kind of argument object)"),
     bound=dict(
         quick="scale/energy/vector edges: all one-atom compounds and all pairs over the 32-atom class alphabet x 9 "
               "count pairs, 2 densities, 7 global wavelengths + selected table points; structure edges: all fragment "
@@ -51,9 +72,14 @@ META = dict(
               "only in charge or only in isotope (O, O{2-}, O[18], O[18]{2-}), all permutations x bracketings x "
               "group multipliers {1,2} x {string, nested list, dict}, each at density= and natural_density= (ions "
               "included); object sessions: all one-atom compounds and all pairs over the class alphabet (counts 1, 2) "
-              "x up to 2 wavelengths; conversions on 40 log-spaced points",
+              "x up to 2 wavelengths; conversions on 40 log-spaced points; front ends: all one-atom compounds and "
+              "all pairs over the class alphabet (counts 1, 2) x every route x 2 density keywords x (7 scalar calls + "
+              "2 keywords x argument kinds x 2-3 calls), all 13 argument kinds for the one-atom compounds and the "
+              "pairs over the 9-atom alphabet, {float64 array, list of integers} for the other pairs; conversion "
+              "functions: 3 functions x 13 argument kinds x lengths {2, 4}",
         thorough="as quick with every 3rd table node/midpoint in the scale/energy edges, structure edges for all "
-                 "multisets of size <= 3 over 9 atoms and of size 4 over 6 atoms; object sessions for all 9 count pairs"),
+                 "multisets of size <= 3 over 9 atoms and of size 4 over 6 atoms; object sessions for all 9 count pairs; "
+                 "front ends with all 13 argument kinds for every compound"),
     assumptions=[
         "scales for the comparison (sum of magnitudes) come from the independent reference mc/ref/neutron.py; "
         "the expected value of an edge is always the library's own second run",
@@ -67,6 +93,17 @@ META = dict(
         "a Formula the caller keeps must have the same structure, density and name after a call as before (documented "
         "attributes only; private memo attributes are not looked at)",
         "natural_density of ions and isotope ions: the natural atom keeps the charge (as in C03)",
+        "front ends: a route that does not exist in the tree (deprecated aliases) is not judged; Formula.neutron_sld "
+        "is asked on formula(compound, density= | natural_density=); neutron_sld_from_atoms gets the {atom: count} "
+        "dictionary; giving BOTH energy= and wavelength= is not in the statement and not in the alphabet; "
+        "energies for the energy= calls come from the reference conversion, tolerance as for the energy edge",
+        "argument kinds: float32 arrays and arrays of more than one dimension are not in the alphabet (the statement "
+        "speaks of scalars and vectors; single precision input would bound the precision of the output); whether "
+        "neutron_wavelength_from_velocity must accept a plain list / tuple ('float or vector') is not said: a "
+        "TypeError there is counted, not judged; a read-only array is a legitimate argument (it is only read)",
+        "'unaltered' = dtype, shape and bytes of an array (of the parent, for a view), members and their types of a "
+        "list / tuple, repr of a scalar; 'a result of its own' = numpy.shares_memory is false, and neither refilling "
+        "the argument nor writing into a later result changes the bytes of a result handed out earlier",
     ],
     level_text="bounded-exhaustive over the compound graph and its edges; grid for the real parameters",
     level_note="trusted base: numpy float arithmetic and the scale computation in mc/ref/neutron.py",
@@ -174,6 +211,213 @@ def leaves(tree):
     for t in tree:
         out.extend(leaves(t))
     return out
+
+
+# ------------------------------------------------------------------ caller-owned argument objects
+# The wavelength / energy / velocity a caller hands in is the caller's: whatever kind of object it is, it must read the
+# same after the call, the result must be an object of its own (refilling the argument later, or writing into the
+# result, changes nothing else), results handed out earlier stay what they were, and the same object handed in again
+# - unchanged, or refilled in place - is read again.
+ARG_KINDS = ("f64", "f64-1", "f64-view", "f64-readonly", "i64", "list", "list-int", "tuple", "tuple-int",
+             "0d", "np.float64", "float", "int")
+INT_KINDS = ("i64", "list-int", "tuple-int", "int")
+SCALAR_KINDS = ("0d", "np.float64", "float", "int")
+KIND_CLASS = {"f64": "array", "f64-1": "array", "f64-view": "array", "f64-readonly": "array", "i64": "array",
+              "list": "list", "list-int": "list", "tuple": "tuple", "tuple-int": "tuple", "0d": "0d-array",
+              "np.float64": "scalar", "float": "scalar", "int": "scalar"}
+SCRIBBLE = -7250.0
+
+
+def arg_values(kind, vals):
+    """the values the argument of this kind holds (python numbers)"""
+    n = 1 if (kind == "f64-1" or kind in SCALAR_KINDS) else len(vals)
+    conv = int if kind in INT_KINDS else float
+    return [conv(v) for v in vals[:n]]
+
+
+def make_arg(kind, vals, name="x"):
+    """-> (the argument, the object the caller owns (the parent of a view), source lines that build it as `name`)"""
+    v = arg_values(kind, vals)
+    if kind in ("f64", "f64-1"):
+        a = np.array(v, dtype=float)
+        return a, a, ["%s = np.array(%r)" % (name, v)]
+    if kind == "f64-view":
+        mixed = []
+        for t in v:
+            mixed += [t, 3.25]
+        parent = np.array(mixed, dtype=float)
+        return parent[::2], parent, ["parent = np.array(%r)" % (mixed,), "%s = parent[::2]" % name]
+    if kind == "f64-readonly":
+        a = np.array(v, dtype=float)
+        a.flags.writeable = False
+        return a, a, ["%s = np.array(%r)" % (name, v), "%s.flags.writeable = False" % name]
+    if kind == "i64":
+        a = np.array(v, dtype=np.int64)
+        return a, a, ["%s = np.array(%r)" % (name, v)]
+    if kind in ("list", "list-int"):
+        a = list(v)
+        return a, a, ["%s = %r" % (name, v)]
+    if kind in ("tuple", "tuple-int"):
+        a = tuple(v)
+        return a, a, ["%s = %r" % (name, a)]
+    if kind == "0d":
+        a = np.array(v[0], dtype=float)
+        return a, a, ["%s = np.array(%r)" % (name, v[0])]
+    if kind == "np.float64":
+        a = np.float64(v[0])
+        return a, a, ["%s = np.float64(%r)" % (name, v[0])]
+    if kind in ("float", "int"):
+        return v[0], v[0], ["%s = %r" % (name, v[0])]
+    raise MachineryError("argument kind %r" % (kind,))
+
+
+def refill_arg(kind, arg, vals, name="x"):
+    """the caller's own in-place update of its argument object -> source line, or None (immutable / read-only)"""
+    v = arg_values(kind, vals)
+    if kind in ("f64", "f64-1", "f64-view", "i64"):
+        arg[...] = v
+        return "%s[...] = %r" % (name, v)
+    if kind == "0d":
+        arg[...] = v[0]
+        return "%s[...] = %r" % (name, v[0])
+    if kind in ("list", "list-int"):
+        arg[:] = v
+        return "%s[:] = %r" % (name, v)
+    return None
+
+
+def obj_state(x):
+    """everything a caller can read of an argument object: array dtype / shape / bytes, members and their types"""
+    if isinstance(x, np.ndarray):
+        return ("ndarray", x.dtype.str, x.shape, x.tobytes())
+    if isinstance(x, (list, tuple)):
+        return (type(x).__name__, tuple(obj_state(v) for v in x))
+    return (type(x).__name__, repr(x))
+
+
+def obj_show(x):
+    return x.tolist() if isinstance(x, np.ndarray) else x if isinstance(x, (int, float)) else repr(x)
+
+
+def leaves_state(leaves):
+    return [((x.shape, x.dtype.str, x.tobytes()) if isinstance(x, np.ndarray) else repr(x)) for x in leaves]
+
+
+def argument_session(acc, what, kind, v1, v2, call, callsrc, judge, case, head, tolerated=None):
+    """One argument object x of `kind` in the caller's hands: call(x); call(x) again; the caller refills x in place
+    with v2 (if x can be written); call(x); the caller writes into the last result.  After every step the caller's
+    objects - x, and every result it was given earlier - must be what the caller left them.
+    call(x) -> list of result leaves (callsrc: source of an expression that gives that list for `x`);
+    judge(leaves, values, when, snippet) -> bool (reports the violation itself; snippet("print({r})") names the
+    result of the last call).
+    -> True (clean) | False (violation reported) | None (not judged)."""
+    cls = KIND_CLASS[kind]
+    x, owner, lines = make_arg(kind, v1)
+    lines = list(head) + lines
+    case = dict(case, argument=kind, values=arg_values(kind, v1))
+
+    nres = [0]
+
+    def snippet(*extra):
+        return "\n".join(lines + [e.replace("{r}", "r%d" % nres[0]) for e in extra]) + "\n"
+
+    def do():
+        acc.evaluations += 1
+        acc.transitions += 1
+        acc.traces += 1
+        nres[0] += 1
+        lines.append("r%d = %s" % (nres[0], callsrc))
+        try:
+            with np.errstate(all="ignore"):
+                return list(call(x))
+        except Exception as e:
+            text = "%s: %s" % (type(e).__name__, e)
+            if tolerated is not None and tolerated(kind, e):
+                acc.count("argument_kind_refused_not_judged:%s-%s" % (what, cls))
+                return None
+            if kind == "f64-readonly" and isinstance(e, ValueError) and "read-only" in str(e):
+                acc.violation("argument-altered:%s-%s" % (what, cls), case,
+                              "the caller's read-only array is only read", text, standalone=snippet())
+            else:
+                acc.violation("raises:%s-%s" % (what, cls), case, "a result", text, standalone=snippet())
+            return False
+
+    def owner_is(state, after):
+        if obj_state(owner) == state:
+            return True
+        acc.violation("argument-altered:%s-%s" % (what, cls), dict(case, after=after),
+                      "the caller's argument as the caller left it: %r" % (state[-1] if cls != "array" and cls != "0d-array"
+                                                                         else np.frombuffer(state[3], dtype=state[1]).tolist(),),
+                      obj_show(owner), standalone=snippet("print(%s)" % ("parent" if kind == "f64-view" else "x")))
+        return False
+
+    def held_are(held, after, why):
+        for n, (leaves, state) in enumerate(held):
+            if leaves_state(leaves) != state:
+                acc.violation("%s:%s-%s" % (why, what, cls), dict(case, after=after, result=n + 1),
+                              "result %d as it was handed out" % (n + 1), [obj_show(v) for v in leaves],
+                              standalone=snippet("print(r%d)" % (n + 1)))
+                return False
+        return True
+
+    def separate(leaves):
+        if isinstance(owner, np.ndarray):
+            for v in leaves:
+                if isinstance(v, np.ndarray) and np.shares_memory(v, owner):
+                    acc.violation("result-aliases-argument:%s-%s" % (what, cls), dict(case, after="call"),
+                                  "a result that is an object of its own", "a result that shares memory with the argument",
+                                  standalone=snippet("print([isinstance(v, np.ndarray) and np.shares_memory(v, x) "
+                                                     "for v in r%d])" % nres[0]))
+                    return False
+        return True
+
+    acc.states += 1
+    acc.nontrivial += 1
+    s0 = obj_state(owner)
+    r1 = do()
+    if not r1:
+        return None if r1 is None else False
+    if not owner_is(s0, "first call") or not separate(r1) or not judge(r1, arg_values(kind, v1), "first", snippet):
+        return False
+    held = [(r1, leaves_state(r1))]
+    r2 = do()
+    if not r2:
+        return False
+    if not owner_is(s0, "second call") or not held_are(held, "second call", "earlier-result-changed-by-later-call") \
+            or not separate(r2) or not judge(r2, arg_values(kind, v1), "second", snippet):
+        return False
+    held.append((r2, leaves_state(r2)))
+    last, s1 = r2, s0
+    code = refill_arg(kind, x, v2)
+    if code is not None:
+        lines.append(code + "          # the caller's own update, in place")
+        s1 = obj_state(owner)
+        if not held_are(held, "caller refilled the argument", "result-aliases-argument"):
+            return False
+        r3 = do()
+        if not r3:
+            return False
+        if not owner_is(s1, "third call") or not held_are(held, "third call", "earlier-result-changed-by-later-call") \
+                or not separate(r3) or not judge(r3, arg_values(kind, v2), "refilled", snippet):
+            return False
+        last = r3
+        acc.outcome("argument object (%s): call, call, refill in place, call" % cls)
+    else:
+        acc.outcome("argument object (%s, cannot be written): call, call" % cls)
+    wrote = False
+    for v in last:
+        if isinstance(v, np.ndarray) and v.flags.writeable:
+            v[...] = SCRIBBLE
+            wrote = True
+    if wrote:
+        lines.append("for v in r%d:" % nres[0])
+        lines.append("    if isinstance(v, np.ndarray): v[...] = %r          # the caller's own arrays now" % SCRIBBLE)
+        if not owner_is(s1, "caller wrote into the result") or \
+                not held_are(held[:1] if last is r2 else held, "caller wrote into a later result",
+                             "earlier-result-changed-by-later-call"):
+            return False
+    return True
+
 
 
 # ------------------------------------------------------------------ the edge runner
@@ -647,6 +891,220 @@ class Edges(object):
             run("add-formula", "P", P, dict(density=d0, wavelength=w), "density=%r, %s" % (d0, wsrc), A, 1.0)
         run("repeat-after-use-as-operand", "F", F, dict(wavelength=w), wsrc, A, 1.0)
 
+    # ---- (G) front ends: every public route to the calculation x every keyword x every kind of argument object
+    FLAT = "flat = lambda r: list(r[0]) + list(r[1]) + [r[2]]"
+
+    def routes(self):
+        """(name, only the three SLDs?) of every public route that exists in this tree; the first one is the base"""
+        from periodictable import formulas
+        out = [("nsf.neutron_scattering", False), ("pt.neutron_scattering", False),
+               ("nsf.neutron_sld", True), ("pt.neutron_sld", True)]
+        if hasattr(self.nsf, "neutron_sld_from_atoms"):
+            out.append(("nsf.neutron_sld_from_atoms", True))
+        if hasattr(self.pt, "neutron_sld_from_atoms"):
+            out.append(("pt.neutron_sld_from_atoms", True))
+        if hasattr(formulas.Formula, "neutron_sld"):
+            out.append(("Formula.neutron_sld", True))
+        if hasattr(formulas.Formula, "neutron_scattering"):
+            out.append(("Formula.neutron_scattering", False))
+        return out
+
+    def route_fn(self, route, comp, atoms, src, asrc, dk, dv):
+        """-> (call(kw) -> list of result leaves, source with %s for the wavelength keywords)"""
+        flat = lambda r: list(r[0]) + list(r[1]) + [r[2]]
+        dens = {dk: dv}
+        dsrc = "%s=%r" % (dk, dv)
+        mod, name = route.split(".")
+        if mod == "Formula":
+            full = name == "neutron_scattering"
+            return ((lambda kw: (flat if full else list)(getattr(self.pt.formula(comp, **dens), name)(**kw))),
+                    ("flat(pt.formula(%s, %s).%s(%%s))" if full else "list(pt.formula(%s, %s).%s(%%s))") % (src, dsrc, name))
+        fn = getattr(self.nsf if mod == "nsf" else self.pt, name)
+        if name == "neutron_scattering":
+            return (lambda kw: flat(fn(comp, **dict(kw, **dens)))), "flat(%s(%s, %s%%s))" % (route, src, dsrc)
+        if name == "neutron_sld_from_atoms":
+            return (lambda kw: list(fn(atoms, **dict(kw, **dens)))), "list(%s(%s, %s%%s))" % (route, asrc, dsrc)
+        return (lambda kw: list(fn(comp, **dict(kw, **dens)))), "list(%s(%s, %s%%s))" % (route, src, dsrc)
+
+    def front_edges(self, frags, kinds=ARG_KINDS):
+        acc = self.acc
+        frags = c03.norm_frags(frags)
+        cls = self.cls(frags)
+        self.data.clear_cache()
+        comp, src = self.compound_args(frags)
+        atoms = dict((lib_atom(self.pt, k), c) for c, k in frags)
+        if len(atoms) != len(frags):
+            raise MachineryError("front ends: an atom repeats in %r" % (frags,))
+        asrc = "{%s}" % ", ".join("%s: %r" % (atom_py(k), c) for c, k in frags)
+        jf = [[c, list(k)] for c, k in frags]
+        head = ["import numpy as np", "import periodictable as pt", "from periodictable import nsf", self.FLAT]
+        pts = self.structure_wavelengths(frags)
+        fv1 = ([4.75, 1.798] + pts[2:3] + [0.5])[:3]
+        fv2 = [10.0, fv1[2], 1.0]
+        iv1, iv2 = [2, 5, 1], [5, 1, 12]
+        ie1, ie2 = [2, 25, 80], [80, 4, 25]
+        lu = any(k[:2] == ("Lu", 0) for c, k in frags)
+        routes = self.routes()
+        for dk, dv in (("density", 2.33), ("natural_density", 1.0)):
+            dref = dv if dk == "density" else self.data.compound_density(frags, ("natural", dv))
+            case0 = dict(kind="front", frags=jf, dens=[dk, dv])
+            bases = {}
+
+            def base(w, how="wavelength"):
+                """the base result: the scalar call of nsf.neutron_scattering with wavelength= (the documented route)"""
+                key = w if how == "wavelength" else None
+                if key not in bases:
+                    kw = dict(wavelength=w) if how == "wavelength" else {}
+                    bsrc = "%s, %s=%r%s" % (src, dk, dv, ", wavelength=%r" % w if kw else "")
+                    st, A = self.call(comp, src, dict(kw, **{dk: dv}), None)
+                    c1 = dict(case0, route="nsf.neutron_scattering", how=how, wavelength=w)
+                    if st == "exc":
+                        acc.violation("raises:base:%s" % cls, c1, "a result", A, standalone=self.snippet([bsrc]))
+                        bases[key] = None
+                    else:
+                        A = self.scalarize(A)
+                        ref = self.data.evaluate(frags, dref, w)
+                        if not self.invariants(A, c1, cls, bsrc):
+                            bases[key] = None
+                        else:
+                            bases[key] = (A, ref, bsrc)
+                            if how == "wavelength":
+                                # ... and the equations themselves (independent reference, as in C03)
+                                bad = None
+                                for variant in (("mass", "nsf") if lu else ("mass",)):
+                                    r2 = self.data.evaluate(frags, dref, w, lu=variant)
+                                    b2 = rn.compare(r2, A)
+                                    if bad is None or len(b2) < len(bad):
+                                        bad = b2
+                                acc.traces += 1
+                                if bad:
+                                    acc.violation("front-end:base-vs-reference:%s" % dk, c1,
+                                                  dict((k, ref[k]) for k in rn.OUTPUTS),
+                                                  dict((k, repr(A[k])) for k in rn.OUTPUTS),
+                                                  standalone=self.snippet([bsrc]), detail=dict(failing=bad, cls=cls))
+                                    bases[key] = None
+                return bases[key]
+
+            def entries(leaves, i):
+                out = {}
+                for k, v in zip(rn.OUTPUTS, leaves):
+                    try:
+                        x = v if i is None else v[i]
+                        out[k] = complex(x) if np.iscomplexobj(x) else float(x)
+                    except Exception:
+                        out[k] = None
+                return out
+
+            def wrong(leaves, i, w, tol, how="wavelength"):
+                """None (agrees) | (names of the failing outputs, expected, observed) for entry i against the base at w"""
+                b = base(w, how)
+                if b is None:
+                    return None
+                A, ref, bsrc = b
+                got = entries(leaves, i)
+                names = list(got)
+                for k in names:
+                    if k in NONNEG and (got[k] is None or isinstance(got[k], complex) or not (got[k] >= 0)):
+                        return [k], "%s >= 0" % k, repr(got[k])
+                B = dict(A)
+                B.update(got)
+                acc.transitions += 1
+                acc.traces += 1
+                bad = rn.compare(ref, (A, B), rel=tol[0], rel_sigma=tol[1])
+                if bad:
+                    return bad, dict((k, A[k]) for k in names), dict((k, repr(got[k])) for k in names)
+                return None
+
+            broken = set()
+            for ri, (route, sld_only) in enumerate(routes):
+                call, rsrc = self.route_fn(route, comp, atoms, src, asrc, dk, dv)
+                nout = 3 if sld_only else 7
+                # -- scalars: no keyword, wavelength=, energy=
+                plan = [("default", None, rn.ABS_WL)]
+                plan += [("wavelength", w, w) for w in fv1]
+                plan += [("energy", rn.energy_of_wavelength(w), w) for w in fv1]
+                for how, value, w in plan:
+                    if how in broken:
+                        continue
+                    kw = {} if how == "default" else {how: value}
+                    ksrc = "" if how == "default" else ("%s=%r" % (how, value))
+                    csrc = rsrc % (ksrc if route.startswith("Formula.") or not ksrc else ", " + ksrc)
+                    c1 = dict(case0, route=route, how=how, value=value)
+                    acc.states += 1
+                    acc.nontrivial += 1
+                    acc.evaluations += 1
+                    try:
+                        with np.errstate(all="ignore"):
+                            leaves = call(kw)
+                        if len(leaves) != nout:
+                            raise ValueError("%d results" % len(leaves))
+                    except Exception as e:
+                        acc.violation("raises:front-end:%s:%s" % (route, how), c1, "%d results" % nout,
+                                      "%s: %s" % (type(e).__name__, e), standalone="\n".join(head + ["print(%s)" % csrc]) + "\n")
+                        broken.add(how if ri == 0 else (route, how))
+                        continue
+                    if (route, how) in broken:
+                        continue
+                    tol = (1e-9, 1e-11) if how == "energy" else (1e-12, 1e-12)
+                    bad = wrong(leaves, None, w, tol, "default" if how == "default" else "wavelength")
+                    if bad:
+                        acc.violation("front-end:%s:%s" % (route, how), c1, bad[1], bad[2],
+                                      standalone="\n".join(head + ["print(%s)" % csrc, "print(%s)" % (
+                                          "flat(nsf.neutron_scattering(%s, %s=%r%s))" % (
+                                              src, dk, dv, "" if how == "default" else ", wavelength=%r" % w))]) + "\n",
+                                      detail=dict(failing=bad[0], cls=cls, shape="scalar"))
+                        broken.add(how if ri == 0 else (route, how))
+                    else:
+                        acc.outcome("front end %s: %s" % (route, how))
+                # -- the wavelength / energy given as every kind of caller-owned object
+                for how in ("wavelength", "energy"):
+                    for kind in kinds:
+                        if how in broken or (route, how) in broken:
+                            continue
+                        if how == "wavelength":
+                            v1, v2 = (iv1, iv2) if kind in INT_KINDS else (fv1, fv2)
+                            wl_of = float
+                        elif kind in INT_KINDS:
+                            v1, v2 = ie1, ie2
+                            wl_of = lambda e: rn.wavelength_of_energy(float(e))
+                        else:
+                            wls = dict((rn.energy_of_wavelength(w), w) for w in fv1 + fv2)
+                            v1, v2 = [rn.energy_of_wavelength(w) for w in fv1], [rn.energy_of_wavelength(w) for w in fv2]
+                            wl_of = wls.__getitem__
+                        tol = (1e-9, 1e-11) if how == "energy" else (1e-12, 1e-12)
+                        c1 = dict(case0, route=route, how=how)
+
+                        def judge(leaves, vals, when, snippet, kind=kind, how=how, route=route, tol=tol, wl_of=wl_of,
+                                  c1=c1, nout=nout):
+                            tag = {"first": "front-end:%s:%s" % (route, how),
+                                   "second": "second-call-same-argument:%s-%s" % (how, KIND_CLASS[kind]),
+                                   "refilled": "argument-refilled-in-place:%s-%s" % (how, KIND_CLASS[kind])}[when]
+                            c2 = dict(c1, argument=kind, values=vals, call=when)
+                            shape = () if kind in SCALAR_KINDS else (len(vals),)
+                            shapes = [np.shape(v) for v in leaves]
+                            if len(leaves) != nout or any(sh != shape for sh in shapes):
+                                acc.violation(tag, c2, "%d outputs of shape %r" % (nout, shape), repr(shapes),
+                                              standalone=snippet("print({r})"),
+                                              detail=dict(cls=cls, shape="vector", route=route))
+                                return False
+                            for i, t in enumerate(vals):
+                                bad = wrong(leaves, None if shape == () else i, wl_of(t), tol)
+                                if bad:
+                                    acc.violation(tag, dict(c2, index=i), bad[1], bad[2],
+                                                  standalone=snippet("print({r})", "print(flat(nsf.neutron_scattering(%s, "
+                                                                     "%s=%r, wavelength=%r)))" % (src, dk, dv, wl_of(t))),
+                                                  detail=dict(failing=bad[0], cls=cls, shape="vector", route=route))
+                                    return False
+                            return True
+
+                        ksrc = "%s=x" % how
+                        csrc = rsrc % (ksrc if route.startswith("Formula.") else ", " + ksrc)
+                        ok = argument_session(acc, how, kind, v1, v2, (lambda x, how=how: call({how: x})), csrc, judge,
+                                              c1, head)
+                        if ok is False:
+                            broken.add(how if ri == 0 else (route, how))
+
+
     # ---- (C) structure edges of one fragment multiset
     def structure_wavelengths(self, frags):
         pts = [1.798, 4.75]
@@ -804,6 +1262,7 @@ class Edges(object):
         acc.count("structures", seen_structs)
 
 
+
 # ------------------------------------------------------------------ (D) conversions
 def conversions(acc):
     pt = load_pt()
@@ -893,6 +1352,76 @@ def conversions(acc):
                     v_lambda=L[0] * vel[0]))
 
 
+
+# ------------------------------------------------------------------ (F) conversions on caller-owned arguments
+CONV_VALUES = {
+    # function: (reference, two float vectors, two integer vectors)
+    "neutron_energy": (rn.energy_of_wavelength, ([4.75, 1.798, 0.5, 10.0], [10.0, 0.9, 4.75, 2.2]),
+                       ([5, 2, 1, 12], [1, 12, 5, 3])),
+    "neutron_wavelength": (rn.wavelength_of_energy, ([3.63, 25.3, 81.8, 0.9], [0.9, 81.8, 14.7, 3.63]),
+                           ([4, 25, 80, 1], [80, 1, 300, 25])),
+    "neutron_wavelength_from_velocity": (rn.wavelength_of_velocity, ([832.9, 2200.0, 7912.0, 395.6],
+                                                                    [395.6, 7912.0, 1500.5, 832.9]),
+                                         ([800, 2200, 8000, 400], [8000, 400, 1500, 2200])),
+}
+
+
+def conversion_arguments(acc, only=None):
+    """every conversion function x every kind of argument object: one session of argument_session each"""
+    load_pt()
+    from periodictable import nsf
+    head = ["import numpy as np", "from periodictable import nsf"]
+    for name in sorted(CONV_VALUES):
+        if only is not None and name != only:
+            continue
+        ref, fvals, ivals = CONV_VALUES[name]
+        fn = getattr(nsf, name)
+
+        def judge(leaves, vals, when, snippet, name=name, fn=fn, ref=ref):
+            r = leaves[0]
+            kind = judge.kind
+            cls = KIND_CLASS[kind]
+            shape = () if kind in SCALAR_KINDS else (len(vals),)
+            case = dict(kind="convarg", fn=name, argument=kind, values=vals, call=when)
+            tag = {"first": "", "second": ":second-call-same-argument", "refilled": ":argument-refilled-in-place"}[when]
+            if np.shape(r) != shape:
+                acc.violation("conv:shape%s:%s-%s" % (tag, name, cls), case, "a result of shape %r" % (shape,),
+                              "shape %r" % (np.shape(r),), standalone=snippet("print({r})"))
+                return False
+            try:
+                got = [float(t) for t in np.ravel(np.asarray(r))]
+            except Exception as e:
+                got = None
+            want = [ref(float(t)) for t in vals]
+            ok = got is not None and all(abs(g - w) <= 1e-12 * abs(w) for g, w in zip(got, want))
+            if ok:
+                # entry i == the scalar call (the library's own second run)
+                for g, t in zip(got, vals):
+                    acc.evaluations += 1
+                    sc = float(fn(float(t)))
+                    if not abs(g - sc) <= 1e-14 * abs(sc):
+                        ok = False
+                        want = "the scalar calls: %r" % ([float(fn(float(t))) for t in vals],)
+                        break
+            if not ok:
+                acc.violation("conv:value%s:%s-%s" % (tag, name, cls), case, want, got if got is not None else repr(r),
+                              standalone=snippet("print({r})"))
+                return False
+            return True
+
+        for kind in ARG_KINDS:
+            v1, v2 = ivals if kind in INT_KINDS else fvals
+            for n in ((4,) if (kind == "f64-1" or kind in SCALAR_KINDS) else (2, 4)):
+                judge.kind = kind
+                tolerated = None
+                if name == "neutron_wavelength_from_velocity":
+                    # 'float or vector': whether a plain list / tuple of velocities is a vector is not said
+                    tolerated = lambda k, e: KIND_CLASS[k] in ("list", "tuple") and isinstance(e, TypeError)
+                argument_session(acc, name, kind, v1[:n], v2[:n], lambda x: [fn(x)], "[nsf.%s(x)]" % name, judge,
+                                 dict(kind="convarg", fn=name), head, tolerated=tolerated)
+    acc.outcome("conversions: %d kinds of caller-owned argument" % len(ARG_KINDS))
+
+
 # ------------------------------------------------------------------ enumeration
 def multisets(alphabet, n):
     """canonical fragment lists: combinations with replacement, counts by position."""
@@ -917,6 +1446,7 @@ def shard(args):
     acc = Acc()
     if kind == "conv":
         conversions(acc)
+        conversion_arguments(acc)
         return acc
     ed = Edges(acc, tier)
     for it in items:
@@ -928,12 +1458,25 @@ def shard(args):
             ed.structure_edges(frags)
         elif kind == "object":
             ed.object_edges(frags)
+        elif kind == "front":
+            ed.front_edges(frags, front_kinds(frags, tier))
         else:
             raise MachineryError(kind)
         acc.count("compounds:" + kind)
     if items:
         acc.sample(dict(kind=kind, compound=c03.compound_str(items[0])))
     return acc
+
+
+FRONT_KINDS_REDUCED = ("f64", "list-int")
+
+
+def front_kinds(frags, tier):
+    """kinds of argument object of the front-end sessions of one compound: all of them for the one-atom compounds and
+    the pairs over the 9-atom alphabet (thorough: for every compound), an array and a list of integers for the rest"""
+    if tier != "quick" or len(frags) == 1 or all(tuple(k) in A9 for c, k in frags):
+        return ARG_KINDS
+    return FRONT_KINDS_REDUCED
 
 
 def object_items(quick):
@@ -983,15 +1526,24 @@ def run(ctx):
     ow = [c03._weight(data, [k for c, k in f]) ** 0.25 for f in oitems]
     for chunk in c03._balanced(oitems, ow, nsh):
         jobs.append(("object", chunk, tier))
+    fitems = object_items(True)               # the count pair does not matter to a front end
+    fw = [(4.0 if front_kinds(f, tier) is ARG_KINDS else 1.0) for f in fitems]
+    for chunk in c03._balanced(fitems, fw, nsh):
+        jobs.append(("front", chunk, tier))
     ctx.pmap(shard, rotate(jobs, ctx.seed))
+    ctx.acc.info["front_end_routes"] = [r for r, _ in Edges(Acc(), tier).routes()]
+    ctx.acc.info["argument_kinds"] = list(ARG_KINDS)
     ctx.acc.info["max_fragments"] = 4
     ctx.acc.info["trees_per_size"] = [len(trees([(1, ("H", 0, 0))] * n)) for n in (1, 2, 3, 4)]
 
 
 def replay(ctx, case, signature=None):
     kind = case.get("kind")
-    if kind == "conv":
-        conversions(ctx.acc)
+    if kind in ("conv", "convarg"):
+        if kind == "conv":
+            conversions(ctx.acc)
+        else:
+            conversion_arguments(ctx.acc, only=case.get("fn"))
         if signature:
             for sig in list(ctx.acc.viol):
                 if sig != signature:
@@ -1007,6 +1559,8 @@ def replay(ctx, case, signature=None):
         ed.structure_edges(frags)
     elif kind == "object":
         ed.object_edges(frags, case.get("density", 2.33))
+    elif kind == "front":
+        ed.front_edges(frags)
     else:
         raise MachineryError("unknown case kind %r" % kind)
     if signature:
